@@ -21,7 +21,55 @@ type rpcCallRes struct {
 	Ms    int64  `json:"ms"`
 }
 
+var (
+	wfMu       sync.Mutex
+	wfRespIDs  map[int32]bool
+	wfReqNames map[string]bool
+	wfInjected int
+)
+
 func init() {
+	// rpc_write_fault: make the package write of selected outgoing messages fail on the live session (verif hook):
+	// responses carrying one of the given message ids, GlobalBegin requests with one of the given names. An empty
+	// argument switches the injection off; the op returns how many writes were failed since the last call.
+	register("rpc_write_fault", func(arg json.RawMessage) (interface{}, error) {
+		var a struct {
+			ResponseIDs  []int32  `json:"response_ids"`
+			RequestNames []string `json:"request_names"`
+		}
+		if err := json.Unmarshal(arg, &a); err != nil {
+			return nil, err
+		}
+		wfMu.Lock()
+		n := wfInjected
+		wfInjected = 0
+		wfRespIDs, wfReqNames = map[int32]bool{}, map[string]bool{}
+		for _, id := range a.ResponseIDs {
+			wfRespIDs[id] = true
+		}
+		for _, nm := range a.RequestNames {
+			wfReqNames[nm] = true
+		}
+		wfMu.Unlock()
+		getty.VerifSetWriteFault(func(msg message.RpcMessage) error {
+			wfMu.Lock()
+			defer wfMu.Unlock()
+			hit := false
+			if msg.Type == message.GettyRequestTypeResponse && wfRespIDs[msg.ID] {
+				hit = true
+			}
+			if b, ok := msg.Body.(message.GlobalBeginRequest); ok && wfReqNames[b.TransactionName] {
+				hit = true
+			}
+			if hit {
+				wfInjected++
+				return fmt.Errorf("verif: injected write failure")
+			}
+			return nil
+		})
+		return map[string]int{"injected": n}, nil
+	})
+
 	// rpc_burst: N concurrent SendSyncRequest(GlobalBeginRequest{name}) callers; each reports what it got back.
 	register("rpc_burst", func(arg json.RawMessage) (interface{}, error) {
 		var a struct {
